@@ -1,0 +1,46 @@
+//go:build verif
+
+// Contracts needed by C14 on the internal-transaction queue (package transactions had no contract file).
+// ASSUMED typed view of the store's State prefix (C09 State contracts + T-SER), added by the C14 worker.
+// Comment-only file, read by /verif/govc.
+
+package transactions
+
+// qExp(ts)[id] / qFin(ts)[id]: an expire / finalize transaction is queued under proposal id
+//@ model qExp(*TransactionStore) array[string]bool
+//@ model qFin(*TransactionStore) array[string]bool
+
+//@ assume func (*TransactionStore).AddExpired
+//@   requires ts != nil
+//@   modifies qExp(ts)[id], vHas(ts.State), vVal(ts.State)
+//@   ensures result == nil ==> qExp(ts)[id]
+//@   ensures result != nil ==> qExp(ts)[id] == old(qExp(ts))[id]
+
+//@ assume func (*TransactionStore).AddFinalized
+//@   requires ts != nil
+//@   modifies qFin(ts)[id], vHas(ts.State), vVal(ts.State)
+//@   ensures result == nil ==> qFin(ts)[id]
+//@   ensures result != nil ==> qFin(ts)[id] == old(qFin(ts))[id]
+
+//@ assume func (*TransactionStore).DeleteExpired
+//@   requires ts != nil
+//@   modifies qExp(ts)[id], vHas(ts.State), vVal(ts.State)
+//@   ensures result0 && err == nil ==> !qExp(ts)[id]
+
+//@ assume func (*TransactionStore).DeleteFinalized
+//@   requires ts != nil
+//@   modifies qFin(ts)[id], vHas(ts.State), vVal(ts.State)
+//@   ensures result0 && err == nil ==> !qFin(ts)[id]
+
+// iteration over the queue (State.IterateRange: committed keys only); every yielded transaction is a queued one
+//@ assume func (*TransactionStore).IterateExpired
+//@   iterator
+//@   requires ts != nil
+//@   modifies nothing
+//@   yields y1 != nil && qExp(ts)[y0]
+
+//@ assume func (*TransactionStore).IterateFinalized
+//@   iterator
+//@   requires ts != nil
+//@   modifies nothing
+//@   yields y1 != nil && qFin(ts)[y0]
